@@ -35,6 +35,18 @@ pub enum Ending {
 	DropManager { at: usize },
 }
 
+#[derive(Clone, Copy, Debug, Serialize, Deserialize, PartialEq, Default)]
+pub enum Hold {
+	#[default]
+	None,
+	/// paused (instantly) before callback `at`, never resumed
+	Paused { at: usize },
+	/// start time: a delay far longer than the run
+	StartDelayed,
+	/// start time: on a clock that is never started
+	StartOnStoppedClock,
+}
+
 #[derive(Clone, Copy, Debug, Serialize, Deserialize, PartialEq)]
 pub enum Pace {
 	Ahead,
@@ -62,6 +74,9 @@ pub struct Case {
 	/// seek_to(frames) issued before this callback
 	pub seek: Option<(usize, usize)>,
 	pub track_paused: bool,
+	/// the sound itself is not advancing when the fault strikes
+	#[serde(default)]
+	pub hold: Hold,
 	/// Some(p): the main phase runs under seeded random schedules instead of directed stepping
 	pub sched: Option<f64>,
 }
@@ -119,6 +134,20 @@ fn gen_case(seed: u64, index: u64, tier: Tier) -> Case {
 			len: rng.urange(1, 6),
 		},
 	};
+	// (a pause issued during a stop fade legitimately cancels the stop: keep the pause first)
+	let hold_pick = rng.below(10);
+	let hold = match hold_pick {
+		0 | 1 => {
+			let mut at = rng.usize_below(callbacks.min(6));
+			if let Ending::Stop { at: stop_at, .. } = ending {
+				at = at.min(stop_at);
+			}
+			Hold::Paused { at }
+		}
+		2 => Hold::StartDelayed,
+		3 => Hold::StartOnStoppedClock,
+		_ => Hold::None,
+	};
 	Case {
 		seed,
 		len,
@@ -134,7 +163,17 @@ fn gen_case(seed: u64, index: u64, tier: Tier) -> Case {
 		callbacks,
 		seek: if rng.chance(0.3) { Some((rng.usize_below(callbacks), rng.usize_below(len + 2))) } else { None },
 		track_paused: rng.chance(0.15),
+		hold,
 		sched: if !systematic && rng.chance(0.35) { Some(*rng.pick(&[0.1, 0.3, 0.7])) } else { None },
+	}
+}
+
+/// Was a stop issued, and not cancelled by a later pause?
+fn stop_issued(case: &Case) -> bool {
+	match (case.ending, case.hold) {
+		(Ending::Stop { at, .. }, Hold::Paused { at: p }) => at < case.callbacks && p <= at,
+		(Ending::Stop { at, .. }, _) => at < case.callbacks,
+		_ => false,
 	}
 }
 
@@ -191,12 +230,20 @@ pub fn run_case(case: &Case) -> CaseResult {
 		fail_seek: case.fail_seek.into_iter().collect(),
 		fail_sticky: case.sticky,
 	};
+	if case.hold == Hold::StartOnStoppedClock {
+		world.exec(&Op::AddClock { speed: Val::Fixed(Speed::TicksPerSecond(10.0)) });
+	}
 	let play = world.exec(&Op::PlayStreaming {
 		track: Some(0),
 		decoder,
 		slice: None,
 		settings: SoundSettingsSpec {
 			loop_region: if case.looped { Some(RegionSpec { start: Pos::Samples(0), end: None }) } else { None },
+			start: match case.hold {
+				Hold::StartDelayed => StartSpec::Delayed(1000.0),
+				Hold::StartOnStoppedClock => StartSpec::Clock { clock: 0, ticks: 1, fraction: 0.0 },
+				_ => StartSpec::Immediate,
+			},
 			..Default::default()
 		},
 	});
@@ -279,6 +326,9 @@ pub fn run_case(case: &Case) -> CaseResult {
 									});
 								}
 							}
+							if case2.hold == (Hold::Paused { at: tick }) {
+								world.exec(&Op::Sound { sound: sound_idx, cmd: SoundCmd::Pause(TweenSpec::INSTANT) });
+							}
 							match case2.ending {
 								Ending::Stop { at, fade } if at == tick => {
 									world.exec(&Op::Sound {
@@ -353,6 +403,9 @@ pub fn run_case(case: &Case) -> CaseResult {
 					cmd: SoundCmd::SeekTo(pos as f64 / sr as f64 + 0.25 / sr as f64),
 				});
 			}
+		}
+		if case.hold == (Hold::Paused { at: cb }) && created {
+			world.exec(&Op::Sound { sound: sound_idx, cmd: SoundCmd::Pause(TweenSpec::INSTANT) });
 		}
 		match case.ending {
 			Ending::Stop { at, fade } if at == cb && created => {
@@ -481,7 +534,7 @@ pub fn run_case(case: &Case) -> CaseResult {
 			|| track_dropped
 			|| stopped_at.is_some()
 			|| probe.errors.load(Ordering::SeqCst) > 0
-			|| matches!(case.ending, Ending::Stop { .. })
+			|| stop_issued(case)
 			|| (!case.looped); // end of data
 		if case.track_paused && !rejected && !manager_dropped && !track_dropped {
 			// resume so that a stop fade / an error flag can be processed
@@ -532,7 +585,7 @@ pub fn run_case(case: &Case) -> CaseResult {
 				"the sound's track was dropped"
 			} else if probe.errors.load(Ordering::SeqCst) > 0 {
 				"the decoder reported an error"
-			} else if matches!(case.ending, Ending::Stop { .. }) {
+			} else if stop_issued(case) {
 				"the sound was stopped"
 			} else {
 				"the end of the audio was reached"
@@ -627,6 +680,12 @@ pub fn run_case(case: &Case) -> CaseResult {
 		Ending::DropTrack { .. } => "drop_track",
 		Ending::DropManager { .. } => "drop_manager",
 	}));
+	res.hit(&format!("hold.{}", match case.hold {
+		Hold::None => "none",
+		Hold::Paused { .. } => "sound_paused",
+		Hold::StartDelayed => "start_delayed",
+		Hold::StartOnStoppedClock => "start_on_stopped_clock",
+	}));
 	res.hit(&format!("pace.{}", match case.pace {
 		Pace::Ahead => "ahead",
 		Pace::InTime => "in_time",
@@ -689,6 +748,9 @@ impl Check for C10 {
 		}
 		if c.track_paused {
 			push(Case { track_paused: false, ..c.clone() });
+		}
+		if c.hold != Hold::None {
+			push(Case { hold: Hold::None, ..c.clone() });
 		}
 		if c.looped {
 			push(Case { looped: false, ..c.clone() });
